@@ -1532,6 +1532,26 @@ func (c S3ApiController) PutBucketActions(ctx *fiber.Ctx) error {
 		parsedAcl := ctx.Locals("parsedAcl").(auth.ACL)
 		var input *auth.PutBucketAclInput
 
+		err := auth.VerifyAccess(ctx.Context(), c.be,
+			auth.AccessOptions{
+				Readonly:      c.readonly,
+				Acl:           parsedAcl,
+				AclPermission: auth.PermissionWriteAcp,
+				IsRoot:        isRoot,
+				Acc:           acct,
+				Bucket:        bucket,
+				Action:        auth.PutBucketAclAction,
+			})
+		if err != nil {
+			return SendResponse(ctx, err,
+				&MetaOpts{
+					Logger:      c.logger,
+					MetricsMng:  c.mm,
+					Action:      metrics.ActionPutBucketAcl,
+					BucketOwner: parsedAcl.Owner,
+				})
+		}
+
 		ownership, err := c.be.GetBucketOwnershipControls(ctx.Context(), bucket)
 		if err != nil && !errors.Is(err, s3err.GetAPIError(s3err.ErrOwnershipControlsNotFound)) {
 			return SendResponse(ctx, err,
@@ -1547,26 +1567,6 @@ func (c S3ApiController) PutBucketActions(ctx *fiber.Ctx) error {
 				debuglogger.Logf("bucket acls are disabled")
 			}
 			return SendResponse(ctx, s3err.GetAPIError(s3err.ErrAclNotSupported),
-				&MetaOpts{
-					Logger:      c.logger,
-					MetricsMng:  c.mm,
-					Action:      metrics.ActionPutBucketAcl,
-					BucketOwner: parsedAcl.Owner,
-				})
-		}
-
-		err = auth.VerifyAccess(ctx.Context(), c.be,
-			auth.AccessOptions{
-				Readonly:      c.readonly,
-				Acl:           parsedAcl,
-				AclPermission: auth.PermissionWriteAcp,
-				IsRoot:        isRoot,
-				Acc:           acct,
-				Bucket:        bucket,
-				Action:        auth.PutBucketAclAction,
-			})
-		if err != nil {
-			return SendResponse(ctx, err,
 				&MetaOpts{
 					Logger:      c.logger,
 					MetricsMng:  c.mm,
